@@ -3,6 +3,8 @@
 //! virtual clock, against an abstract model of the four keep-alive reasons).
 //!
 //! Oracle:
+//!  * a held stream counts as active until it is dropped or marked ignore_for_keep_alive; closing
+//!    its write half (`close()`) while keeping it (to read the answer) does not end it;
 //!  * safety: `Err(KeepAliveTimeout)` is returned only in a state in which there is no active
 //!    stream (not marked ignore_for_keep_alive), no stream negotiating (inbound or outbound), no
 //!    outstanding outbound stream request and the handler does not ask for keep-alive, and in
@@ -24,7 +26,7 @@ use std::time::{Duration, Instant};
 
 pub const META: Meta = Meta {
     level: "model_checking",
-    rule: "BFS over all histories (depth 8 quick / 11 thorough) of: open inbound stream (<=2), complete / abort its negotiation, handler requests outbound stream (<=2), muxer grants it, complete / abort its negotiation, drop a negotiated stream, mark it ignore_for_keep_alive, flip the handler's keep-alive, advance the virtual clock by 2 s / 4 s / 40 s; idle_timeout 4 s and, separately, 0 s. States deduplicated on the abstract model (per-stream status, counts, keep-alive, idle-for) + the implementation's observable projection (handler log, held streams, live timer deadlines relative to now, muxer queues). Non-trivial = states with at least one stream / request / negotiation ever created.",
+    rule: "BFS over all histories (depth 8 quick / 11 thorough) of: open inbound stream (<=2), complete / abort its negotiation, handler requests outbound stream (<=2), muxer grants it, complete / abort its negotiation, drop a negotiated stream, mark it ignore_for_keep_alive, close its write half while still holding it, flip the handler's keep-alive, advance the virtual clock by 2 s / 4 s / 40 s; idle_timeout 4 s and, separately, 0 s. States deduplicated on the abstract model (per-stream status, counts, keep-alive, idle-for) + the implementation's observable projection (handler log, held streams, live timer deadlines relative to now, muxer queues). Non-trivial = states with at least one stream / request / negotiation ever created.",
     explanation: "Each step runs the production Connection::poll to quiescence and compares its result with the model (safety on every step, liveness after the 40 s advance); un-deduplicated DFS companion at smaller depth.",
     assumptions: &["every action is followed by a poll of the connection task", "stream-upgrade timeouts are set beyond the horizon (only the idle timer is explored)", "multistream-select negotiation is completed by injecting the remote's messages in one piece"],
 };
@@ -42,6 +44,9 @@ pub enum Act {
     AbortOut(u8),
     Drop(u8),
     Ignore(u8),
+    /// the owner closes the WRITE half (`AsyncWrite::poll_close` to completion) but keeps holding
+    /// the stream (e.g. to read the answer): still an active stream
+    CloseWrite(u8),
     KeepAlive(bool),
     /// advance the virtual clock by 2 s x {1, 2, 20}
     Adv(u8),
@@ -51,6 +56,7 @@ pub enum Act {
 struct StreamM {
     alive: bool,
     ignored: bool,
+    write_closed: bool,
 }
 
 static CLOSES: AtomicU64 = AtomicU64::new(0);
@@ -160,6 +166,9 @@ impl System for Sys {
                 if !s.ignored {
                     v.push(Act::Ignore(k as u8));
                 }
+                if !s.write_closed {
+                    v.push(Act::CloseWrite(k as u8));
+                }
             }
         }
         v.push(Act::KeepAlive(!self.keep_alive));
@@ -187,7 +196,7 @@ impl System for Sys {
                 m.extend(ms_msg("/a"));
                 h.inject(false, &m);
                 self.remotes.push(end);
-                self.streams.push(StreamM { alive: true, ignored: false });
+                self.streams.push(StreamM { alive: true, ignored: false, write_closed: false });
                 expect_new_stream = true;
             }
             Act::AbortIn(k) => {
@@ -210,7 +219,7 @@ impl System for Sys {
                 m.extend(ms_msg("/a"));
                 h.inject(false, &m);
                 self.remotes.push(end);
-                self.streams.push(StreamM { alive: true, ignored: false });
+                self.streams.push(StreamM { alive: true, ignored: false, write_closed: false });
                 expect_new_stream = true;
             }
             Act::AbortOut(k) => {
@@ -228,6 +237,18 @@ impl System for Sys {
                     s.ignore_for_keep_alive();
                 }
                 self.streams[*k as usize].ignored = true;
+            }
+            Act::CloseWrite(k) => {
+                let mut st = self.d.h.lock().unwrap().streams[*k as usize].take();
+                if let Some(stream) = st.as_mut() {
+                    use futures::AsyncWriteExt;
+                    match kit::tasks::run_ready(stream.close(), 16) {
+                        Some(Ok(())) => {}
+                        other => return Err(format!("harness-desync close :: closing the write half of stream {k} gave {other:?}")),
+                    }
+                }
+                self.d.h.lock().unwrap().streams[*k as usize] = st;
+                self.streams[*k as usize].write_closed = true;
             }
             Act::KeepAlive(b) => {
                 self.d.h.lock().unwrap().keep_alive = *b;
